@@ -129,6 +129,21 @@ def has_known_value(o):
     return False
 
 
+def same_name_types(observations):
+    seen = {}
+
+    def walk(o):
+        if isinstance(o, list):
+            if o and o[0] == "rec" and len(o) == 4:
+                key = tuple(tuple(f) for f in o[2])
+                if seen.setdefault(o[1], key) != key:
+                    return True
+            return any(walk(x) for x in o)
+        return False
+
+    return walk(observations)
+
+
 def execute(ctx, case):
     from flow.record import RecordStreamReader, RecordStreamWriter
 
@@ -198,6 +213,10 @@ def execute(ctx, case):
         ctx.event("ref_skipped_known_value_class")
         return
     opts = {kk: vv for kk, vv in variant.items() if kk not in ("name", "concat")}
+    if opts.get("bare_identifier") and same_name_types(written):
+        # old-style streams identify a type by its bare name: two types of one name cannot live in such a stream
+        ctx.event("ref_skipped_bare_identifier_with_same_name_types")
+        return
     rng = random.Random(case["s"] ^ 0x5EED)
     expected = [observe.normalise(o) for o in written]
     if variant.get("concat"):
